@@ -88,10 +88,23 @@ def sub(t, **kw):
 def run(model, rep, tier):
     rep.explanation = EXPLANATION
     rep.level = "proof"
+    # one unreadable construct must not hide what the syntax-level purity rule found
+    rep.attempt(_run, model, rep, tier)
+
+
+def _run(model, rep, tier):
     rel = model.rel("utils")
+    # purity is decided on the syntax alone, before (and whether or not) the closed forms can be extracted; helper functions of the module
+    # that the two functions call are included
+    pure = True
+    for nm in ("trace_res", "plane_res"):
+        f0 = model.func("utils", nm)
+        pure &= purity(model, rep, f0, rel)
+        for c in ast.walk(f0):
+            if isinstance(c, ast.Call) and isinstance(c.func, ast.Name) and ("utils", c.func.id) in model.funcs and c.func.id not in ("trace_res", "plane_res"):
+                pure &= purity(model, rep, model.funcs[("utils", c.func.id)], rel)
     ftr, trs, dtr, ltr = summarize(model, "trace_res")
     fpl, pls, dpl, lpl = summarize(model, "plane_res")
-    pure = purity(model, rep, ftr, rel) & purity(model, rep, fpl, rel)
     A_ = lambda n: fr(n)
     tf_ = 1 + A_("tcr") * (A_("temp") - 20)
     docs = {"trace_res": A_("rho") * (A_("l_mm") / 1000) / ((A_("w1_mm") + A_("w2_mm")) / 2 * A_("t_mm") / 10 ** 6) * tf_,
